@@ -1,8 +1,12 @@
 mod engine;
 mod hist;
 mod joinworld;
+mod props_conc;
+mod props_det;
+mod props_disp;
 mod props_hist;
 mod props_join;
+mod props_save;
 mod props_seq;
 mod stoseq;
 mod zoo;
@@ -21,10 +25,15 @@ fn registry() -> Vec<Property> {
         props_join::c06(),
         props_join::c07(),
         props_join::c16(),
+        props_save::c14(),
+        props_save::c15(),
         props_seq::c08(),
+        props_conc::c10(),
+        props_disp::c11(),
         props_seq::c12(),
         props_seq::c13(),
         props_seq::c19(),
+        props_det::c20(),
     ]
 }
 
@@ -60,6 +69,7 @@ fn main() {
             engine::orchestrate(find(&args[1]), tier, args.get(3).map(|s| s.as_str()))
         }
         "worker" if args.len() >= 9 => engine::worker_main(find(&args[1]), &args[2..]),
+        "transcript" if args.len() >= 3 => props_det::transcript_main(&args[1], &args[2]),
         "replay" if args.len() >= 3 => engine::replay_main(find(&args[1]), &args[2]),
         _ => usage(),
     };
